@@ -1,10 +1,21 @@
 import PsV.Proofs.Glam
+import PsV.Proofs.GlamCont
+import PsV.Proofs.GlamIdx
+import PsV.Proofs.GlamListed
+import PsV.Props.C01
 /-!
 # C17 — grid evaluation is the tensor-product B-spline sum, computed by mode products
 
 Property theorems only (helper lemmas and the predicates `IdxIn`, `NdSparse.WF`, `GridTableWF`
-live in `PsV/Proofs/Glam.lean`).  The carrier is any ordered field whose `Arith` bundle is lawful;
+live in `PsV/Proofs/Glam.lean`; continuity at knots / `AgreeAt` in `Proofs/GlamCont.lean`; the C-typed index
+arithmetic in `Model/GlamIdx.lean` + `Proofs/GlamIdx.lean`; flat sum and listed pattern in `Proofs/GlamFlat.lean`,
+`Proofs/GlamListed.lean`).  The carrier is any ordered field whose `Arith` bundle is lawful;
 `Rat` with the instance the compiled driver executes is one.
+
+Sections: 1 index bijection · 2 mode product · 3 grideval = tensor-product sum · 4/5 link to the pointwise
+convention (partial / full with the precise side condition, necessity, witnesses, link to C01's finding) ·
+6 no overflow of the `int` index arithmetic below 2³¹ columns · 7 flat n-d sum and the listed pattern ·
+8 agreement with the pointwise evaluation routine `ndsplineeval` at model level.
 -/
 namespace PsV
 open Arith
@@ -79,7 +90,9 @@ theorem grideval_wrong_arity (dims : List (Dim α)) (coef : Int → α) (coords 
     (h : coords.length ≠ dims.length) : gridEval dims coef coords = none := by
   unfold gridEval; rw [if_pos h]
 
-/-! ## 4. grid convention vs. pointwise convention -/
+/-! ## 4. grid convention vs. pointwise convention (first, partial version — kept; superseded by section 5,
+where `grideval_eq_pointwise` / `grideval_get_eq_pointwise` prove the statement under the precise side
+condition `AgreeAt`, of which `RightContAt` is a special case: `rightContAt_agreeAt`) -/
 
 /-- The grid sum is the pointwise specification `specEval` (value mode in every dimension) whenever
 every coordinate is below `knots[naxes]` of its dimension or is not a knot value at all
@@ -104,6 +117,258 @@ theorem grideval_get_eq_pointwise_partial (dims : List (Dim α)) (coef : Int →
         nd.get g = specEval ⟨dims, coef⟩ xs (List.replicate dims.length BasisMode.value) := by
   obtain ⟨nd, h1, _, _, h4⟩ := grideval_eq_spec dims coef coords hwf hlen
   exact ⟨nd, h1, fun g xs hg hx => by rw [h4 g xs hg, grideval_eq_pointwise_partial dims coef xs hx]⟩
+
+/-! ## 5. the full link to pointwise evaluation, with the precise side condition
+
+What made `grideval_eq_pointwise_partial` partial is its hypothesis `RightContAt`: from `knots[naxes]`
+upwards it excludes *every* coordinate that equals a knot, although the right-continuous basis of
+`grideval` and the left-continuous one of the pointwise convention differ only where a basis function
+jumps, i.e. at a knot whose multiplicity exceeds the order.  `AgreeAt d x` is the precise condition
+(`x < knots[naxes]`, or `x` occurs at most `order` times among the knots); for non-decreasing knots it
+is sufficient (`grideval_eq_pointwise`) and — up to the position of the knot — necessary
+(`basis_jump_at_full_knot`, `grideval_ne_pointwise_1d`, the witnesses below). -/
+
+/-- **Continuity at a knot of multiplicity ≤ order**: on a non-decreasing knot window the right- and
+left-continuous Cox–de Boor functions `B_{i,n}` agree at `x` unless `x` fills `n+1` of its `n+2` knots. -/
+theorem coxDeBoor_indR_eq_indL (t : Int → α) (x : α) (n : Nat) (i : Int) (hm : MonoOn t i (i + n + 1))
+    (hA : ¬ (t i = x ∧ t (i + n) = x)) (hB : ¬ (t (i + 1) = x ∧ t (i + n + 1) = x)) :
+    Bind (indR t x) t x n i = Bind (indL t x) t x n i :=
+  Bind_indR_eq_indL t x n i hm hA hB
+
+/-- **Full statement** (supersedes `grideval_eq_pointwise_partial`, which is the case `RightContAt`):
+for tables with non-decreasing knots the grid sum is the pointwise specification `specEval` at every
+point whose coordinates satisfy `AgreeAt` — below `knots[naxes]`, or not a knot of multiplicity above
+the order.  In particular every point of a table with simple knots and orders ≥ 1, and every
+coordinate equal to a simple knot ≥ `knots[naxes]`, is covered. -/
+theorem grideval_eq_pointwise (dims : List (Dim α)) (coef : Int → α) (xs : List α)
+    (hk : ∀ d ∈ dims, d.KnotsMono ∧ d.naxes = d.nknots - d.order - 1)
+    (h : List.Forall₂ AgreeAt dims xs) :
+    gridSpec dims coef xs
+      = specEval ⟨dims, coef⟩ xs (List.replicate dims.length BasisMode.value) := by
+  unfold gridSpec specEval
+  rw [gridRows_eq_specRows_of_agree dims xs hk h]
+
+/-- the old hypothesis implies the new one (so the partial theorem is the special case) -/
+theorem rightContAt_agreeAt (d : Dim α) (x : α) (h : RightContAt d x) : AgreeAt d x := h.agreeAt
+
+/-- 3 and 5 combined: the value `grideval` stores at a grid index is the pointwise specification at
+that grid point, for every grid point satisfying the side condition. -/
+theorem grideval_get_eq_pointwise (dims : List (Dim α)) (coef : Int → α)
+    (coords : List (List α)) (hwf : GridTableWF dims) (hmono : ∀ d ∈ dims, d.KnotsMono)
+    (hlen : coords.length = dims.length) :
+    ∃ nd, gridEval dims coef coords = some nd ∧ nd.ranges = coords.map List.length ∧
+      ∀ g xs, gridPoint coords g = some xs → List.Forall₂ AgreeAt dims xs →
+        nd.get g = specEval ⟨dims, coef⟩ xs (List.replicate dims.length BasisMode.value) := by
+  obtain ⟨nd, h1, h2, _, h4⟩ := grideval_eq_spec dims coef coords hwf hlen
+  exact ⟨nd, h1, h2, fun g xs hg hx => by
+    rw [h4 g xs hg, grideval_eq_pointwise dims coef xs (fun d hd => ⟨hmono d hd, hwf.naxes_eq d hd⟩) hx]⟩
+
+/-- **The property as stated, modulo C01's known finding.**  For every grid point below the last knot
+in every dimension (in particular: strictly inside the knot range) that is not in the configuration of
+C01's known finding `degenerate-upper-end` (`NonDegenerate`: not both `x = knots[naxes]` and
+`knots[naxes-1] = knots[naxes]`), the stored grid value is the pointwise specification.  So below the
+last knot the only exceptional inputs of C17 are the exceptional inputs of C01. -/
+theorem grideval_get_eq_pointwise_inside (dims : List (Dim α)) (coef : Int → α)
+    (coords : List (List α)) (hwf : GridTableWF dims) (hmono : ∀ d ∈ dims, d.KnotsMono)
+    (hlen : coords.length = dims.length) :
+    ∃ nd, gridEval dims coef coords = some nd ∧ nd.ranges = coords.map List.length ∧
+      ∀ g xs, gridPoint coords g = some xs →
+        List.Forall₂ (fun d x => x < d.knots ((d.nknots : Int) - 1) ∧ NonDegenerate d x) dims xs →
+        nd.get g = specEval ⟨dims, coef⟩ xs (List.replicate dims.length BasisMode.value) := by
+  obtain ⟨nd, h1, h2, h3⟩ := grideval_get_eq_pointwise dims coef coords hwf hmono hlen
+  refine ⟨nd, h1, h2, fun g xs hg hx => h3 g xs hg ?_⟩
+  have hk : ∀ d ∈ dims, d.KnotsMono ∧ d.naxes = d.nknots - d.order - 1 :=
+    fun d hd => ⟨hmono d hd, hwf.naxes_eq d hd⟩
+  clear h3 hg h1 h2 hwf hmono hlen
+  induction hx with
+  | nil => exact List.Forall₂.nil
+  | @cons d x ds xs' hd _ ih =>
+    exact List.Forall₂.cons
+      (agreeAt_of_nonDegenerate d x (hk d (by simp)).1 (hk d (by simp)).2 hd.1 hd.2)
+      (ih (fun d' hd' => hk d' (by simp [hd'])))
+
+/-- **Necessity, basis level.**  At a knot `x ≥ knots[naxes]` of multiplicity `order+1`
+(`knots[a] = … = knots[a+order] = x`) followed by a larger knot, basis function `a` is `1` in the matrix
+`grideval` builds and `0` under the pointwise convention. -/
+theorem basis_jump_at_full_knot (d : Dim α) (x : α) (hm : d.KnotsMono) (a : Nat)
+    (ha : a + d.order + 1 < d.nknots) (h1 : d.knots a = x) (h2 : d.knots ((a : Int) + d.order) = x)
+    (h3 : x < d.knots ((a : Int) + d.order + 1)) (hge : d.knots d.naxes ≤ x) :
+    Bind (indR d.knots x) d.knots x d.order a = 1 ∧ Bsel d x 0 a = 0 :=
+  basis_differs_at_full_knot d x hm a ha h1 h2 h3 hge
+
+/-- **Necessity, table level (one dimension).**  Under the same hypotheses the 1-d table with this
+dimension (stride 1) and the unit coefficient vector `e_a` has grid value `1` and pointwise
+specification `0` at `x`: without the multiplicity condition the statement is false. -/
+theorem grideval_ne_pointwise_1d (d : Dim α) (x : α) (hm : d.KnotsMono)
+    (hn : d.naxes = d.nknots - d.order - 1) (hs : d.stride = 1) (a : Nat)
+    (ha : a + d.order + 1 < d.nknots) (h1 : d.knots a = x) (h2 : d.knots ((a : Int) + d.order) = x)
+    (h3 : x < d.knots ((a : Int) + d.order + 1)) (hge : d.knots d.naxes ≤ x) :
+    gridSpec [d] (fun p : Int => if p = (a : Int) * d.stride then (A.one : α) else A.zero) [x] = 1 ∧
+    specEval ⟨[d], fun p : Int => if p = (a : Int) * d.stride then (A.one : α) else A.zero⟩ [x]
+      [BasisMode.value] = 0 := by
+  obtain ⟨r, l⟩ := basis_differs_at_full_knot d x hm a ha h1 h2 h3 hge
+  have han : a < d.naxes := by omega
+  constructor
+  · unfold gridSpec
+    simp only [gridRows]
+    rw [specSum_1d_unit _ _ a (by simpa using han) (by omega)]
+    simp [List.getD_eq_getElem?_getD, han, r]
+  · unfold specEval
+    simp only [specRows]
+    rw [specSum_1d_unit _ _ a (by simpa using han) (by omega)]
+    simp [List.getD_eq_getElem?_getD, han, derivOrder, l]
+
+/-! ## 6. the `int` index arithmetic of `slicemultiply` cannot overflow below 2³¹ columns
+
+`PsV/Model/GlamIdx.lean` restates the index expressions of `slicemultiply` in the C types they are written
+in (`int cols, j, stride`, `unsigned int` ranges and indices, `long` triplet indices): products are taken
+modulo 2³² and converted to `int`, `j/stride` and `j % stride` are signed, a zero divisor is undefined
+behaviour (`CRes.ub`).  The theorems below say that with fewer than 2³¹ columns in the flattened section
+none of this can be observed: the C-typed routines *are* the natural-number definitions of sections 1–3
+(the ones the driver executes).  The bound is decidable (`sliceIdxSafe`, `gridIdxSafe`) and the check
+evaluates it on every generated case. -/
+
+/-- `cols` (an `int` product of `unsigned int` ranges) is the exact number of columns. -/
+theorem slicemultiply_cols_exact (ranges : List Nat) (dim : Nat)
+    (hpos : ∀ i, i < ranges.length → i ≠ dim → 0 < ranges.getD i 0)
+    (hb : colsOf ranges dim < 2147483648) : colsC ranges dim = colsOf ranges dim :=
+  colsC_eq ranges dim hpos hb
+
+/-- The flattened column the C code accumulates in a `long` (`stride*index` in `unsigned int`, `stride`
+in `int`) is the exact mixed-radix number `flattenCol`, and it is below the number of columns. -/
+theorem slicemultiply_flatten_exact (ranges idx : List Nat) (dim : Nat) (hv : IdxIn idx ranges)
+    (hd : dim < ranges.length) (hb : colsOf ranges dim < 2147483648) :
+    flattenColC ranges idx dim = ((flattenCol ranges idx dim : Nat) : Int) ∧
+      flattenCol ranges idx dim < colsOf ranges dim :=
+  flattenColC_eq ranges idx dim hv hd hb
+
+/-- The un-flattening loop in `int` arithmetic (`stride /= range`, `j/stride`, `j % stride`) divides by
+no zero and produces the exact index tuple `unflattenIdx`. -/
+theorem slicemultiply_unflatten_exact (ranges : List Nat) (dim row col : Nat) (hd : dim < ranges.length)
+    (hpos : ∀ k, k < ranges.length → k ≠ dim → 0 < ranges.getD k 0)
+    (hb : colsOf ranges dim < 2147483648) (hrow : row < 4294967296) (hcol : col < colsOf ranges dim) :
+    unflattenIdxC ranges dim row col = .ok (unflattenIdx ranges dim row col) :=
+  unflattenIdxC_eq ranges dim row col
+    (fun k hk => hpos k ((mem_loopDims hd).mp hk).1 ((mem_loopDims hd).mp hk).2)
+    (by rw [← colsOf_eq_mrProd ranges dim hd]; exact hb) hrow (by omega)
+
+/-- **No overflow in `slicemultiply`.**  For a tensor that lists valid indices only, if the other index
+ranges multiply to less than 2³¹ and `b` has fewer than 2³² columns (`sliceIdxSafe`), `slicemultiply` with
+its index arithmetic in C types meets no undefined behaviour and returns exactly `sliceMultiply a b dim`
+(`.fail` = the dimension check, as before). -/
+theorem slicemultiply_int_arith_exact (a : NdSparse α) (b : Mat α) (dim : Nat) (ha : a.WF)
+    (hd : dim < a.ranges.length) (hsafe : sliceIdxSafe a.ranges dim b.ncol = true) :
+    sliceMultiplyC a b dim = CRes.ofOption (sliceMultiply a b dim) :=
+  sliceMultiplyC_eq a b dim ha hd hsafe
+
+/-- **No overflow in `grideval`.**  If at every step of the loop over the dimensions the section has
+fewer than 2³¹ columns (`gridIdxSafe` on the table's `naxes` and the grid lengths — the predicate the
+check evaluates on each case), `grideval` with C-typed index arithmetic in every `slicemultiply` is
+`gridEval`. -/
+theorem grideval_int_arith_exact (dims : List (Dim α)) (coef : Int → α) (coords : List (List α))
+    (hwf : GridTableWF dims)
+    (hsafe : gridIdxSafe (dims.map (·.naxes)) 0 (coords.map List.length) = true) :
+    gridEvalC dims coef coords = CRes.ofOption (gridEval dims coef coords) := by
+  unfold gridEvalC gridEval
+  by_cases h : coords.length ≠ dims.length
+  · rw [if_pos h, if_pos h]; rfl
+  · rw [if_neg h, if_neg h]
+    apply gridLoopC_eq dims coords 0 _ (coefTensor_wf dims coef hwf.strides hwf.ne)
+    · rw [coefTensor_eq]; simp
+    · rw [coefTensor_eq]; exact hsafe
+
+/-- **The bound in terms of the table and grid sizes.**  If `Π_d max(1, naxes_d, npts_d) < 2³¹`
+(`sizeBound`: per dimension the larger of the number of basis functions and the number of grid
+abscissae), no `slicemultiply` call of `grideval` can overflow: the C-typed routine is `gridEval`. -/
+theorem grideval_int_arith_exact_of_sizes (dims : List (Dim α)) (coef : Int → α) (coords : List (List α))
+    (hwf : GridTableWF dims) (hlen : coords.length = dims.length)
+    (h : sizeBound (dims.map (·.naxes)) (coords.map List.length) < 2147483648) :
+    gridEvalC dims coef coords = CRes.ofOption (gridEval dims coef coords) :=
+  grideval_int_arith_exact dims coef coords hwf
+    (gridIdxSafe_of_sizeBound _ _ (by simp [hlen]) h)
+
+/-- **Entry counter.**  A tensor that lists valid indices only (every intermediate tensor of `grideval`
+does: `slice_is_mode_product`, `grideval_eq_spec`) lists at most `Π ranges` *distinct* index tuples — the
+number of rows of the n-tuple once CHOLMOD has merged duplicates.  So the `int` entry counter of
+`slicemultiply` (`for (i = 0; i < a->rows; i++)`) stays below 2³¹ whenever the dense size does. -/
+theorem listed_entries_le_dense (s : NdSparse α) (hs : s.WF) :
+    (s.entries.map (·.1)).dedup.length ≤ PsV.Permute.prodL s.ranges :=
+  listed_count_le s hs
+
+/-! ## 7. the `slicemultiply` chain as one flat sum, and the set of listed grid points
+
+CHOLMOD's `triplet_to_sparse` / `ssmult` / `sparse_to_triplet` are modelled by their meaning (section 2).
+Section 3 identifies the chain of mode products with the nested sum `specSum`; here it is the flat
+n-dimensional tensor-product sum over every stored coefficient, and the *pattern* of the result (which
+grid indices are listed at all — what the tie compares exactly with the code) is characterised too. -/
+
+/-- **The chain of `slicemultiply` calls is the tensor-product evaluation sum**, any number of
+dimensions: the value stored at grid index `g` is `Σ_q coef[q] · Π_d B_d(digit_d(q), x_d)` over all
+`Π naxes` stored coefficients (`digits` = the row-major index tuple of position `q`). -/
+theorem grideval_get_eq_flat_sum (dims : List (Dim α)) (coef : Int → α) (coords : List (List α))
+    (hwf : GridTableWF dims) (hlen : coords.length = dims.length) :
+    ∃ nd, gridEval dims coef coords = some nd ∧
+      ∀ g xs, gridPoint coords g = some xs →
+        nd.get g = ∑ q ∈ Finset.range (PsV.Permute.prodL (dims.map (·.naxes))),
+          coef (q : Int) * basisProd dims xs (PsV.Permute.digits (dims.map (·.naxes)) q) := by
+  obtain ⟨nd, h1, h2, _, h4⟩ := grideval_eq_spec dims coef coords hwf hlen
+  refine ⟨nd, h1, fun g xs hg => ?_⟩
+  have hx : xs.length = dims.length := by rw [gridPoint_length coords g xs hg, hlen]
+  rw [h4 g xs hg, gridSpec_flat dims coef xs hwf.ne hwf.strides hx]
+
+/-- **Pattern of `slicemultiply`** (the symbolic product of `ssmult`): the result lists `idx` iff some
+listed entry `e` of `a` agrees with `idx` off `dim` and `b[e_dim, idx_dim]` is non-zero (stored). -/
+theorem slice_lists_iff (a : NdSparse α) (b : Mat α) (dim : Nat) (ha : a.WF) (hd : dim < a.ranges.length)
+    (a' : NdSparse α) (h : sliceMultiply a b dim = some a') (idx : List Nat) :
+    a'.Lists idx ↔ ∃ e, a.Lists e ∧ ∃ g, g < b.ncol ∧ b.val (e.getD dim 0) g ≠ 0 ∧ idx = e.set dim g :=
+  slice_lists_iff' a b dim ha hd a' h idx
+
+/-- **Which grid points `grideval` lists**: exactly those where the tensor-product sum has a non-zero
+term — some stored coefficient `coef[pos c] ≠ 0` whose basis product `Π_d B_d(c_d, x_d)` is non-zero.
+(With `get_of_not_listed`: every other grid point has value zero, and is not listed.) -/
+theorem grideval_lists_iff (dims : List (Dim α)) (coef : Int → α) (coords : List (List α))
+    (hwf : GridTableWF dims) (hlen : coords.length = dims.length) :
+    ∃ nd, gridEval dims coef coords = some nd ∧
+      ∀ g xs, gridPoint coords g = some xs →
+        (nd.Lists g ↔ ∃ c, IdxIn c (dims.map (·.naxes)) ∧
+          coef (posL dims c : Nat) * basisProd dims xs c ≠ 0) :=
+  gridEval_lists dims coef coords hwf hlen
+
+end
+
+/-! ## 8. grid evaluation agrees with the pointwise evaluation *routine* (model level, exact arithmetic) -/
+section
+variable {α : Type} [Field α] [LinearOrder α] [IsStrictOrderedRing α]
+attribute [local instance] Arith.ofField
+
+/-- **C17 at model level.**  For a well-formed table (C01's `Table.WF`, row-major strides) and any grid,
+the value `grideval` stores at a grid index equals what the pointwise routine `ndsplineeval` (C01's model
+of the evaluation code: margin loops, de Boor recurrence, block walk) returns at that grid point, for
+every grid point the lookup accepts that lies below the last knot in every dimension and is not in the
+configuration of C01's known finding (`NonDegenerate`).  Composition of `grideval_get_eq_pointwise_inside`
+with `C01_eval_eq_spec_partial`; exact arithmetic on both sides (rounding is the envelope of the check). -/
+theorem grideval_get_eq_ndsplineeval (T : Table α) (coords : List (List α)) (hT : T.WF)
+    (hs : StridesRowMajor T.dims) (hlen : coords.length = T.dims.length) :
+    ∃ nd, gridEval T.dims T.coef coords = some nd ∧ nd.ranges = coords.map List.length ∧
+      ∀ g xs cs, gridPoint coords g = some xs →
+        @searchCenters α (cmpLO α) (T.dims.map Dim.axis) xs = .ok cs →
+        List.Forall₂ (fun d x => x < d.knots ((d.nknots : Int) - 1) ∧ NonDegenerate d x) T.dims xs →
+        nd.get g = ndsplineeval T xs cs 0 := by
+  have hne : T.dims ≠ [] := by
+    intro h; have := hT.stride; rw [h] at this; exact this
+  have hg : GridTableWF T.dims := ⟨hne, fun d hd => (hT.dims d hd).naxes_eq, hs⟩
+  obtain ⟨nd, h1, h2, h3⟩ := grideval_get_eq_pointwise_inside T.dims T.coef coords hg
+    (fun d hd => (hT.dims d hd).mono) hlen
+  refine ⟨nd, h1, h2, fun g xs cs hgp hsc hx => ?_⟩
+  have hxl : T.dims.length = xs.length := by rw [gridPoint_length coords g xs hgp, hlen]
+  have hnd : ∀ (ds : List (Dim α)) (ys : List α),
+      List.Forall₂ (fun d x => x < d.knots ((d.nknots : Int) - 1) ∧ NonDegenerate d x) ds ys →
+      AllNonDegenerate ds ys := by
+    intro ds ys h
+    induction h with
+    | nil => trivial
+    | cons hd _ ih => exact ⟨hd.2, ih⟩
+  rw [h3 g xs hgp hx, C01_eval_eq_spec_partial T xs cs hT hxl (hnd _ _ hx) hsc]
 
 end
 
@@ -140,5 +405,183 @@ example :
         linarith
       have := Int.cast_injective h2
       omega
+
+/-! ## witnesses for section 5 (all at `Rat`, the carrier the driver executes) -/
+
+/-- order 1, knots 0,1,2,3,3 (naxes = 3): the last knot is double, `knots[naxes-1] < knots[naxes]` -/
+def lastKnotTable : Table Rat :=
+  ⟨[⟨1, 5, 3, 1, fun i => if i ≤ 0 then 0 else if i = 1 then 1 else if i = 2 then 2 else 3⟩],
+   fun i => if i = 2 then 7 else 1⟩
+
+theorem degTable_gridWF : GridTableWF degTable.dims := by
+  refine ⟨by simp [degTable], ?_, rfl⟩
+  intro d hd
+  simp only [degTable, List.mem_singleton] at hd
+  subst hd; rfl
+
+theorem degTable_knotsMono : ∀ d ∈ degTable.dims, d.KnotsMono := by
+  intro d hd
+  simp only [degTable, List.mem_singleton] at hd
+  subst hd
+  intro i j hi hij hj
+  simp only at hj ⊢
+  split_ifs <;> first | (exfalso; omega) | norm_num
+
+/-- **Witness that the side condition is necessary — the input class of C01's known finding.**
+`degTable` (order 1, knots 0,1,2,2,3, coefficients 1,5,7) on the one-point grid `x = 2 = knots[naxes]`,
+a double knot with `knots[naxes-1] = knots[naxes]`: `grideval` stores `7` (the piece to the right of the
+knot), the pointwise specification is `5` (the piece to its left; `C01_degenerate_upper_end`), and the
+pointwise *code* model yields `0` (NaN in IEEE arithmetic) — three different answers.  The point
+violates `AgreeAt` and C01's `NonDegenerate`, and lies strictly inside the knot range. -/
+theorem grideval_ne_pointwise_at_degenerate_upper_end :
+    (∃ nd, gridEval degTable.dims degTable.coef [[2]] = some nd ∧ nd.get [0] = 7) ∧
+    specEval degTable [2] [BasisMode.value] = 5 ∧
+    ndsplineeval degTable [2] [2] 0 = 0 ∧
+    (∀ d ∈ degTable.dims, ¬ AgreeAt d 2 ∧ ¬ NonDegenerate d 2 ∧
+      d.knots 0 < 2 ∧ (2 : Rat) < d.knots ((d.nknots : Int) - 1)) := by
+  refine ⟨?_, C01_degenerate_upper_end.2.2, C01_degenerate_upper_end.2.1, ?_⟩
+  · obtain ⟨nd, h1, _, _, h4⟩ := grideval_eq_spec degTable.dims degTable.coef [[2]] degTable_gridWF rfl
+    refine ⟨nd, h1, ?_⟩
+    rw [h4 [0] [2] rfl]
+    simp [gridSpec, gridRows, specSum, specSumRow, degTable, PsV.Bind, indR, List.range, List.range.loop]
+    norm_num
+  · intro d hd
+    simp only [degTable, List.mem_singleton] at hd
+    subst hd
+    refine ⟨?_, ?_, by norm_num, by norm_num⟩
+    · rintro (h | h)
+      · norm_num at h
+      · exact h 2 (by norm_num) (by norm_num) (by norm_num)
+    · rintro (h | h)
+      · norm_num at h
+      · norm_num at h
+
+/-- **Witness that "below the last knot" is needed in `grideval_get_eq_pointwise_inside`** (and that the
+exceptional class is larger than C01's at the last knot): order 1, knots 0,1,2,3,3, `x = 3`.  C01's
+`NonDegenerate` holds, but `x` is a double knot: `grideval` stores `0` (nothing extends to the right),
+the pointwise specification is `7`. -/
+theorem grideval_ne_pointwise_at_last_knot :
+    (∃ nd, gridEval lastKnotTable.dims lastKnotTable.coef [[3]] = some nd ∧ nd.get [0] = 0) ∧
+    specEval lastKnotTable [3] [BasisMode.value] = 7 ∧
+    (∀ d ∈ lastKnotTable.dims, d.KnotsMono ∧ NonDegenerate d 3 ∧ ¬ AgreeAt d 3) := by
+  have hwf : GridTableWF lastKnotTable.dims := by
+    refine ⟨by simp [lastKnotTable], ?_, rfl⟩
+    intro d hd
+    simp only [lastKnotTable, List.mem_singleton] at hd
+    subst hd; rfl
+  refine ⟨?_, ?_, ?_⟩
+  · obtain ⟨nd, h1, _, _, h4⟩ := grideval_eq_spec lastKnotTable.dims lastKnotTable.coef [[3]] hwf rfl
+    refine ⟨nd, h1, ?_⟩
+    rw [h4 [0] [3] rfl]
+    simp [gridSpec, gridRows, specSum, specSumRow, lastKnotTable, PsV.Bind, indR, List.range, List.range.loop]
+    norm_num
+  · simp [specEval, specRows, specSum, specSumRow, lastKnotTable, Bsel, Dind, PsV.Bind, selInd, indL, derivOrder,
+      List.range, List.range.loop]
+    norm_num
+  · intro d hd
+    simp only [lastKnotTable, List.mem_singleton] at hd
+    subst hd
+    refine ⟨?_, Or.inl (by norm_num), ?_⟩
+    · intro i j hi hij hj
+      simp only at hj ⊢
+      split_ifs <;> first | (exfalso; omega) | norm_num
+    · rintro (h | h)
+      · norm_num at h
+      · exact h 3 (by norm_num) (by norm_num) (by norm_num)
+
+/-- Non-vacuity of `coxDeBoor_indR_eq_indL`: knots `0,1,2,…`, the quadratic `B_{0,2}` at its simple knot 2. -/
+example : MonoOn (fun i : Int => (i : Rat)) 0 (0 + (2 : Nat) + 1) ∧
+    ¬ (((0 : Int) : Rat) = 2 ∧ (((0 : Int) + (2 : Nat) : Int) : Rat) = 2) ∧
+    ¬ ((((0 : Int) + 1 : Int) : Rat) = 2 ∧ (((0 : Int) + (2 : Nat) + 1 : Int) : Rat) = 2) := by
+  refine ⟨fun a b _ hab _ => by show ((a : Int) : Rat) ≤ ((b : Int) : Rat); exact_mod_cast hab, by norm_num, by norm_num⟩
+
+/-- Non-vacuity of `grideval_eq_pointwise`, `grideval_get_eq_pointwise` and
+`grideval_get_eq_pointwise_inside`: the 2-d table of the example above with the grid point `(5, 5/2)`;
+`5` is a (simple) knot above `knots[naxes] = 4` of the first dimension — a point the partial theorem
+excludes (`RightContAt` fails) and the full one covers. -/
+example :
+    let dims : List (Dim Rat) := [⟨2, 7, 4, 2, fun i => (i : Rat)⟩, ⟨1, 4, 2, 1, fun i => (i : Rat)⟩]
+    let coords : List (List Rat) := [[1/2, 5, 3], [5/2]]
+    GridTableWF dims ∧ (∀ d ∈ dims, d.KnotsMono) ∧ coords.length = dims.length ∧
+      gridPoint coords [1, 0] = some [5, 5/2] ∧ List.Forall₂ AgreeAt dims [5, 5/2] ∧
+      List.Forall₂ (fun d x => x < d.knots ((d.nknots : Int) - 1) ∧ NonDegenerate d x) dims [5, 5/2] ∧
+      ¬ RightContAt (⟨2, 7, 4, 2, fun i => (i : Rat)⟩ : Dim Rat) 5 := by
+  refine ⟨⟨by simp, ?_, ⟨rfl, rfl⟩⟩, ?_, rfl, rfl, ?_, ?_, ?_⟩
+  · intro d hd
+    simp only [List.mem_cons, List.not_mem_nil, or_false] at hd
+    rcases hd with rfl | rfl <;> rfl
+  · intro d hd
+    simp only [List.mem_cons, List.not_mem_nil, or_false] at hd
+    rcases hd with rfl | rfl <;> exact fun i j _ hij _ => by show ((i : Int) : Rat) ≤ ((j : Int) : Rat); exact_mod_cast hij
+  · refine List.Forall₂.cons (Or.inr ?_) (List.Forall₂.cons (Or.inr ?_) List.Forall₂.nil)
+    · intro a _ _ ⟨h1, h2⟩
+      simp only at h1 h2
+      have e1 : a = 5 := by exact_mod_cast h1
+      have e2 : a + 2 = 5 := by exact_mod_cast h2
+      omega
+    · intro a _ _ ⟨h1, _⟩
+      simp only at h1
+      have h2 : ((2 * a : Int) : Rat) = ((5 : Int) : Rat) := by push_cast; linarith
+      have := Int.cast_injective h2
+      omega
+  · refine List.Forall₂.cons ⟨by norm_num, Or.inl (by norm_num)⟩
+      (List.Forall₂.cons ⟨by norm_num, Or.inl (by norm_num)⟩ List.Forall₂.nil)
+  · rintro (h | h)
+    · norm_num at h
+    · exact h 5 (by norm_num)
+
+/-- Non-vacuity of `basis_jump_at_full_knot` / `grideval_ne_pointwise_1d`: the dimension of `degTable`,
+`a = 2`, `x = 2`. -/
+example :
+    let d : Dim Rat := ⟨1, 5, 3, 1, fun i => if i ≤ 0 then 0 else if i = 1 then 1 else if i = 2 then 2 else if i = 3 then 2 else 3⟩
+    d.KnotsMono ∧ d.naxes = d.nknots - d.order - 1 ∧ d.stride = 1 ∧ 2 + d.order + 1 < d.nknots ∧
+      d.knots (2 : Nat) = 2 ∧ d.knots (((2 : Nat) : Int) + d.order) = 2 ∧
+      (2 : Rat) < d.knots (((2 : Nat) : Int) + d.order + 1) ∧ d.knots d.naxes ≤ 2 := by
+  refine ⟨degTable_knotsMono _ (by simp [degTable]), rfl, rfl, by decide, by norm_num, by norm_num, by norm_num,
+    by norm_num⟩
+
+/-- **The bound is sharp.**  Index ranges `65536 × 32768 × 1`, `dim = 2`: the section has exactly 2³¹
+columns and the `int` product `cols` is `-2147483648`; with `65536 × 65536 × 1` it is `0`. -/
+theorem slicemultiply_cols_overflow_witness :
+    colsOf [65536, 32768, 1] 2 = 2147483648 ∧ colsC [65536, 32768, 1] 2 = -2147483648 ∧
+    colsOf [65536, 65536, 1] 2 = 4294967296 ∧ colsC [65536, 65536, 1] 2 = 0 := by
+  decide
+
+/-- Non-vacuity of section 6: a 3×4×2 tensor, `dim = 1`, an entry, its flattened column; and the grid
+predicate on a 2-d table with `naxes = (4, 2)` and a `3 × 1` grid. -/
+example :
+    IdxIn [2,3,1] [3,4,2] ∧ colsOf [3,4,2] 1 = 6 ∧ flattenColC [3,4,2] [2,3,1] 1 = 5 ∧
+    unflattenIdxC [3,7,2] 1 6 5 = .ok [2,6,1] ∧ sliceIdxSafe [3,4,2] 1 7 = true ∧
+    gridIdxSafe [4,2] 0 [3,1] = true ∧ sizeBound [4,2] [3,1] = 8 := by
+  refine ⟨⟨rfl, by decide⟩, by decide, by decide, by rfl, by decide, by decide, by decide⟩
+
+/-- Non-vacuity of section 7 (`grideval_get_eq_flat_sum`, `grideval_lists_iff`; `slice_lists_iff` shares
+the hypotheses of `slice_is_mode_product`, see the first example): `degTable` on the one-point grid
+`x = 2`; the grid index `[0]` is listed because coefficient `c = [2]` (value 7) has basis value 1 there. -/
+example :
+    GridTableWF degTable.dims ∧ ([[2]] : List (List Rat)).length = degTable.dims.length ∧
+    gridPoint ([[2]] : List (List Rat)) [0] = some [2] ∧
+    ∃ c, IdxIn c (degTable.dims.map (·.naxes)) ∧
+      degTable.coef (posL degTable.dims c : Nat) * basisProd degTable.dims [2] c ≠ 0 := by
+  refine ⟨degTable_gridWF, rfl, rfl, [2], ⟨rfl, by decide⟩, ?_⟩
+  simp [basisProd, posL, degTable, PsV.Bind, indR]
+  norm_num
+
+/-- Non-vacuity of `grideval_get_eq_ndsplineeval`: C01's example table (order 2, knots 0..6, stride 1),
+the one-point grid `x = 7/2`, accepted by the lookup with centre 3, below the last knot, non-degenerate. -/
+example : (⟨[⟨2, 7, 4, 1, fun i => (i : Rat)⟩], fun _ => 1⟩ : Table Rat).WF ∧
+    StridesRowMajor [(⟨2, 7, 4, 1, fun i => (i : Rat)⟩ : Dim Rat)] ∧
+    gridPoint ([[7/2]] : List (List Rat)) [0] = some [7/2] ∧
+    @searchCenters Rat (cmpLO Rat) [Dim.axis (⟨2, 7, 4, 1, fun i => (i : Rat)⟩ : Dim Rat)] [(7/2 : Rat)] = .ok [3] ∧
+    List.Forall₂ (fun (d : Dim Rat) x => x < d.knots ((d.nknots : Int) - 1) ∧ NonDegenerate d x)
+      [(⟨2, 7, 4, 1, fun i => (i : Rat)⟩ : Dim Rat)] [(7/2 : Rat)] := by
+  refine ⟨⟨?_, rfl⟩, rfl, rfl, ?_, ?_⟩
+  · intro d hd
+    simp only [List.mem_singleton] at hd
+    subst hd
+    exact ⟨by decide, rfl, fun i j _ hij _ => by show ((i:Int):Rat) ≤ ((j:Int):Rat); exact_mod_cast hij⟩
+  · simp [searchCenters, searchAxis, Dim.axis, bsearch, Cmp.lt, Cmp.le]
+    norm_num
+  · exact List.Forall₂.cons ⟨by norm_num, Or.inl (by norm_num)⟩ List.Forall₂.nil
 
 end PsV
